@@ -103,8 +103,11 @@ def state_mismatch(real, m, budget):
 		if (fh is None) != (m.fh is None):
 			out.append("hopping %s (model %s)" % ("off" if fh is None else "on", "off" if m.fh is None else "on"))
 		elif fh is not None:
-			g = (getattr(fh, "hsn", None), getattr(fh, "maio", None),
-				[(a // 1000, b // 1000) for a, b in getattr(fh, "ma", [])])
+			try:
+				g = (getattr(fh, "hsn", None), getattr(fh, "maio", None),
+					[(a // 1000, b // 1000) for a, b in getattr(fh, "ma", [])])
+			except (TypeError, ValueError):
+				g = ("mobile allocation is not a list of (Rx, Tx) pairs", None, [])
 			if g != (m.fh[0], m.fh[1], list(m.fh[2])):
 				out.append("hopping parameters differ (%d channels, model %d)" % (len(g[2]), len(m.fh[2])))
 	return out
